@@ -264,6 +264,32 @@ def geometry5_histories(tier):
     return out
 
 
+def rareops_histories(tier):
+    """rarely used operators (SQUARED_DIFFERENCE, PACK / UNPACK, SPLIT_V, SHAPE, EXPAND_DIMS, LOG / SQRT / GELU / 16-bit EXP, PRELU with full and
+    per-channel alpha, UNIDIRECTIONAL_SEQUENCE_LSTM batch- and time-major): alone, behind a producer and in front of a consumer"""
+    starts = [((1, 8, 8, 8), "int8"), ((1, 2, 3, 8), "int8"), ((1, 7, 33, 3), "uint8"), ((1, 16, 16, 8), "int16"), ((1, 1, 4, 16), "int8")]
+    if tier != "quick":
+        starts += [((1, 4, 4, 8), "int8"), ((1, 16, 16, 16), "int8"), ((1, 3, 5, 20), "int8"), ((1, 8, 8, 32), "uint8")]
+    pres = ["conv3x3", "relu", "cpu_neg"] if tier == "quick" else ["conv3x3", "relu", "cpu_neg", "maxpool2x2", "add_const", "logistic", "reshape", "split"]
+    posts = ["conv1x1", "add_const", "cpu_neg"] if tier == "quick" else ["conv1x1", "add_const", "cpu_neg", "relu", "mul_const", "tap", "concat", "softmax"]
+    out, seen = [], set()
+
+    def add(start, steps):
+        h = dict(start=(list(start[0]), start[1]), steps=list(steps))
+        k = repr(h)
+        if k not in seen and nets.build(h, 0) is not None:
+            seen.add(k)
+            out.append(h)
+    for st in starts:
+        for r in nets.SIGMA_R:
+            add(st, [r])
+            for p_ in pres:
+                add(st, [p_, r])
+            for q_ in posts:
+                add(st, [r, q_])
+    return out
+
+
 def default_plan(tier, scale=1.0):
     mids = ["tap", "branch_cpu", "branch_npu"]
     big = [((1, 32, 32, 16), "int8")]
@@ -291,7 +317,7 @@ def default_plan(tier, scale=1.0):
                 ("cpualias4xC2", cpualias, "c2"),
                 ("G1xCZ", nets.STARTS_Q[:2], nets.SIGMA_Q, 1, "cZ"),
                 ("regblockdepxCP", reg_blockdep, "cP"), ("regtilepadxC8", reg_tilepad, "c8"), ("regupcascadexC8", reg_upcascade, "c8"), ("regifacexC2", reg_iface, "c2"),
-                ("geometryxC1", geometry_histories(tier), "c1"), ("geometry2xC1", geometry2_histories(tier), "c1"), ("geometry3xC1", geometry3_histories(tier), "c1"), ("geometry4xC1", geometry4_histories(tier), "c1"), ("geometry5xC1", geometry5_histories(tier), "c1"),
+                ("geometryxC1", geometry_histories(tier), "c1"), ("geometry2xC1", geometry2_histories(tier), "c1"), ("geometry3xC1", geometry3_histories(tier), "c1"), ("geometry4xC1", geometry4_histories(tier), "c1"), ("geometry5xC1", geometry5_histories(tier), "c1"), ("rareopsxC2", rareops_histories(tier), "c2"),
                 ("perfcascade3xCP", histories(big, perf_ops, 3), "cP")]
     return [("G1xC24", nets.STARTS_T, nets.SIGMA_T, 1, "c24"),
             ("resizefirstxCR", resize_first + [dict(start=([1, 16, 16, 8], "int8"), steps=h["steps"]) for h in resize_first], "cR"),
@@ -299,7 +325,7 @@ def default_plan(tier, scale=1.0):
             ("G2xC8", nets.STARTS_Q, nets.SIGMA_Q, 2, "c8"),
             ("chain3xC4", nets.STARTS_Q[:2], nets.SIGMA_C, 3, "c4"),
             ("perfcascade3xCP", histories(big + [((1, 48, 48, 8), "int8")], nets.SIGMA_C, 3), "cP"),
-            ("geometryxC2", geometry_histories(tier), "c2"), ("geometry2xC4", geometry2_histories(tier), "c4"), ("geometry3xC4", geometry3_histories(tier), "c4"), ("geometry4xC4", geometry4_histories(tier), "c4"), ("geometry5xC4", geometry5_histories(tier), "c4"), ("cpualias4xC8", cpualias, "c8"), ("G1xCZ", nets.STARTS_T, nets.SIGMA_T, 1, "cZ"),
+            ("geometryxC2", geometry_histories(tier), "c2"), ("geometry2xC4", geometry2_histories(tier), "c4"), ("geometry3xC4", geometry3_histories(tier), "c4"), ("geometry4xC4", geometry4_histories(tier), "c4"), ("geometry5xC4", geometry5_histories(tier), "c4"), ("rareopsxC8", rareops_histories(tier), "c8"), ("cpualias4xC8", cpualias, "c8"), ("G1xCZ", nets.STARTS_T, nets.SIGMA_T, 1, "cZ"),
             ("fork3xC8", fork_histories(nets.STARTS_Q, nets.SIGMA_C + ["cpu_neg", "concat", "split"], mids, nets.SIGMA_C + ["cpu_neg", "concat", "reshape"]), "c8")]
 
 
